@@ -1,11 +1,205 @@
 import StorageModel.Driver.Common
+import StorageModel.C15.Spec
+import StorageModel.C15.Config
 /- model driver for C15: `run spec` reads case lines on stdin and prints one output line per case
-   (spec = false: the engine model's output; spec = true: the spec's verdict). -/
-namespace StorageModel.Driver.C15
-open StorageModel.Driver
+   (spec = false: the engine model's output; spec = true: the spec's verdict).
 
-def step (_line : String) : String := "not-implemented"
-def specStep (_line : String) : String := "not-implemented"
+   case line:   h <tx>;<tx>;…          tx = <op>,<op>,…
+     op:  c/<s>/<id>/<name>/<roles>/<child>            create through store s (0 = A, 1 = A1, 2 = A2)
+          u/<s>/<id>/<name>/<roles>/<child>/<chk>      update; chk = * (nil checker) | subset of "nrc" | -
+          d/<s>/<id>                                   delete
+     roles = - | r.r.r     child = n (nil) | <value>     ids 0..4 (0 = ""), values 0..4 (0 = "")
+   output line: one segment per transaction, joined by " ;; ":
+     <results> commit|abort E <events delivered> F <FindById…> Q <QueryIds…> I <Iterate…> X <index reads…> D <bucket dump>           -/
+namespace StorageModel.Driver.C15
+open StorageModel.Driver StorageModel.C15
+
+def nIds : Nat := 4
+def nVals : Nat := 4
+
+def parseNat? (s : String) : Option Nat := s.toNat?
+
+def parseRoles (s : String) : Option (List Nat) :=
+  if s == "-" then some [] else (s.splitOn ".").mapM parseNat?
+
+def parseChild (s : String) : Option (Option Nat) :=
+  if s == "n" then some none else (parseNat? s).map some
+
+def parseSel (s : String) : Option Sel :=
+  match s with
+  | "0" => some .A
+  | "1" => some .A1
+  | "2" => some .A2
+  | _ => none
+
+def parseChk (s : String) : Option Checker :=
+  if s == "*" then none
+  else some ⟨s.contains 'n', s.contains 'r', s.contains 'c'⟩
+
+def parseOp (s : String) : Option Op :=
+  match s.splitOn "/" with
+  | ["c", sel, id, name, roles, child] => do
+    let sel ← parseSel sel
+    let id ← parseNat? id
+    let name ← parseNat? name
+    let roles ← parseRoles roles
+    let child ← parseChild child
+    pure (.create sel id ⟨name, roles, child⟩)
+  | ["u", sel, id, name, roles, child, chk] => do
+    let sel ← parseSel sel
+    let id ← parseNat? id
+    let name ← parseNat? name
+    let roles ← parseRoles roles
+    let child ← parseChild child
+    pure (.update sel id ⟨name, roles, child⟩ (parseChk chk))
+  | ["d", sel, id] => do
+    let sel ← parseSel sel
+    let id ← parseNat? id
+    pure (.delete sel id)
+  | _ => none
+
+def parseHist (s : String) : Option (List (List Op)) :=
+  (s.splitOn ";").mapM fun tx => (tx.splitOn ",").mapM parseOp
+
+/-! rendering -/
+
+def errStr : Err → String
+  | .blank => "blank"
+  | .exists_ => "exists"
+  | .notfound => "notfound"
+  | .dupName => "dup:name"
+  | .dupCode => "dup:code"
+  | .nonnull => "nonnull"
+
+def natList (l : List Nat) : String :=
+  if l.isEmpty then "-" else ".".intercalate (l.map toString)
+
+def optVal : Option Nat → String
+  | none => "n"
+  | some v => toString v
+
+def sels : List (Nat × Sel) := [(0, .A), (1, .A1), (2, .A2)]
+def idRange : List Nat := (List.range nIds).map (· + 1)
+def valRange : List Nat := (List.range nVals).map (· + 1)
+
+def filters : List (String × Filter) := [("t", .tt), ("n1", .nameEq 1), ("r1", .hasRole 1)]
+
+def obsFind (st : St) : String :=
+  " ".intercalate <| sels.flatMap fun (k, s) => idRange.map fun id =>
+    s!"{k}.{id}=" ++ (match findById st s id with
+      | none => "-"
+      | some (n, r, c) => s!"{n}/{natList r}/" ++ (if s == .A then "_" else optVal c))
+
+def obsQuery (st : St) : String :=
+  " ".intercalate <| sels.flatMap fun (k, s) =>
+    (filters.map fun (qn, f) => s!"{k}.{qn}={natList (queryIds st s f)}") ++
+    [s!"{k}.s={natList (querySorted st s .tt)}"]
+
+def obsIter (st : St) : String :=
+  " ".intercalate <| sels.flatMap fun (k, s) =>
+    [s!"{k}.i={natList (queryIds st s .tt)}", s!"{k}.v={natList (iterateValidIds st s .tt)}"]
+
+def optId : Option Nat → String
+  | none => "-"
+  | some v => toString v
+
+def obsIdx (st : St) : String :=
+  " ".intercalate <|
+    (valRange.map fun v => s!"n.{v}={optId (mget st.nameIdx v)}") ++
+    (valRange.map fun v => s!"r.{v}={natList (canon ((st.rolesIdx.filter (·.1 == v)).map (·.2)))}") ++
+    (valRange.map fun v => s!"c.{v}={optId (mget st.codeIdx v)}")
+
+def idS (k : Nat) : String := if k == 0 then "" else s!"e{k}"
+def valS (k : Nat) : String := if k == 0 then "" else s!"v{k}"
+def roleS (k : Nat) : String := if k == 0 then "" else s!"r{k}"
+
+def fieldP : Option Nat → String
+  | none => "\\x07"
+  | some v => "\\x05" ++ valS v
+
+def dumpLines (st : St) : List String :=
+  let fixed := ["/u/", "/u/indexes/", "/u/indexes/things/", "/u/indexes/things/name/",
+    "/u/indexes/things/roles/", "/u/indexes/things/code/", "/u/things/"]
+  let ents := (canon (mkeys st.ents)).flatMap fun id =>
+    match mget st.ents id with
+    | none => []
+    | some e =>
+      let b := s!"/u/things/{idS id}/"
+      [b, b ++ "name=\\x05" ++ valS e.name, b ++ "roles/"] ++
+      (e.roles.map fun r => b ++ "roles/\\x05" ++ roleS r ++ "=") ++
+      (match e.c1 with
+       | none => []
+       | some c => [b ++ "ext1/", b ++ "ext1/code=" ++ fieldP c]) ++
+      (match e.c2 with
+       | none => []
+       | some c => [b ++ "ext2/", b ++ "ext2/colour=" ++ fieldP c])
+  let names := (canon (mkeys st.nameIdx)).flatMap fun v =>
+    match mget st.nameIdx v with
+    | none => []
+    | some id => [s!"/u/indexes/things/name/{valS v}={idS id}"]
+  let codes := (canon (mkeys st.codeIdx)).flatMap fun v =>
+    match mget st.codeIdx v with
+    | none => []
+    | some id => [s!"/u/indexes/things/code/{valS v}={idS id}"]
+  let roleVals := canon (st.rolesIdx.map (·.1))
+  let roles := roleVals.flatMap fun r =>
+    s!"/u/indexes/things/roles/{roleS r}/" ::
+      ((canon ((st.rolesIdx.filter (·.1 == r)).map (·.2))).map fun id =>
+        s!"/u/indexes/things/roles/{roleS r}/\\x05{idS id}=")
+  fixed ++ ents ++ names ++ codes ++ roles
+
+def strLe (a b : String) : Bool := a < b || a == b
+
+def obsDump (st : St) : String :=
+  ",".intercalate ((dumpLines st).mergeSort strLe)
+
+def observe (st : St) : String :=
+  s!"F {obsFind st} Q {obsQuery st} I {obsIter st} X {obsIdx st} D {obsDump st}"
+
+def selS : Sel → String
+  | .A => "0"
+  | .A1 => "1"
+  | .A2 => "2"
+
+def evS (e : Ev) : String :=
+  selS e.store ++ (match e.kind with | .created => "c" | .updated => "u" | .deleted => "d") ++ toString e.id
+
+/-- run the operations of one transaction, collecting the per-operation results and the events
+    queued for delivery at commit -/
+def runOps {σ : Type} (f : σ → Op → Except Err σ) (view : σ → St) (st : σ) :
+    List Op → List String → List Ev → (Option σ × List String × List Ev)
+  | [], acc, evs => (some st, acc.reverse, evs)
+  | op :: rest, acc, evs =>
+    match f st op with
+    | .ok st' => runOps f view st' rest ("ok" :: acc) (evs ++ eventsOf (view st) op)
+    | .error e => (none, (errStr e :: acc).reverse, [])
+
+def runHist {σ : Type} (f : σ → Op → Except Err σ) (view : σ → St) (st : σ) :
+    List (List Op) → List String → List String
+  | [], acc => acc.reverse
+  | tx :: rest, acc =>
+    let (r, res, evs) := runOps f view st tx [] []
+    let st' := r.getD st
+    let evText := if evs.isEmpty then "-" else ",".intercalate (evs.map evS)
+    let seg := ",".intercalate res ++ (if r.isSome then " commit " else " abort ") ++ "E " ++ evText ++ " " ++
+      observe (view st')
+    runHist f view st' rest (seg :: acc)
+
+def step (line : String) : String :=
+  match splitSp line with
+  | ["h", h] =>
+    match parseHist h with
+    | some hist => " ;; ".intercalate (runHist (stepOp Config.current) id St.init hist [])
+    | none => "bad-case"
+  | _ => "bad-case"
+
+def specStep (line : String) : String :=
+  match splitSp line with
+  | ["h", h] =>
+    match parseHist h with
+    | some hist => " ;; ".intercalate (runHist specOp derive ([] : Ents) hist [])
+    | none => "bad-case"
+  | _ => "bad-case"
 
 def run (spec : Bool) : IO Unit := forEachLine (if spec then specStep else step)
 
